@@ -117,6 +117,13 @@ EXTRA = {
              f"{side}-extreme-long") for side in ("cli", "srv")],
 }
 
+# bursts: buffers / in-flight limits of 24-64 and 12-40 calls queued (and abandoned, or expiring together) in one go
+_BURST = lambda wo: [("cli", ["--scripts=120", "--len=120", "--burst=1"] + (["--wo=1"] if wo else []),
+                      ["--scripts=5000", "--len=140", "--burst=1"] + (["--wo=1"] if wo else []), "cli-burst")]
+EXTRA["C02"] = EXTRA.get("C02", []) + _BURST(True)
+for _p in ("C01", "C03", "C05", "C11"):
+    EXTRA[_p] = EXTRA.get(_p, []) + _BURST(False)
+
 # families judged by the monitors only (projection = op lines); none at present
 MONITOR_ONLY = set()
 
@@ -129,7 +136,8 @@ def families(prop, sides=("cli", "srv")):
             nt = (CLI_NONTRIVIAL if side == "cli" else SRV_NONTRIVIAL)[prop]
             f = trace.Family(side, q, t, project=projector(proj), nontrivial=nt,
                              rule=f"{side} scripts with {' '.join(q[2:])}: as the plain family plus boundary / long-range values "
-                                  "(deadlines days to months or decades away, extreme ids) and clock steps that reach them")
+                                  "(deadlines days to months or decades away, extreme ids) and clock steps that reach them, or "
+                                  "(burst) large buffers and many calls queued, abandoned or expiring at once")
             f.tag = tag
             fams.append(f)
     if "cli" in sides and prop in CLI_PROJ:
